@@ -109,6 +109,7 @@ def endFailures : LoopEnd → List Failure
   | .gaveUp => [giveUpFailure]
   | .waitError => [waitFailure]
   | .forkFailed => [forkFailure]
+  | .noFork => [noForkFailure]
   | _ => []
 
 theorem nonFinal_status (s : BitVec 32) :
